@@ -55,6 +55,13 @@ CLAIMED = {
  'C20': dict(level='model_checking', ref='5/C20',
    text='Solver.__init__ and Evolvent with SolverParameters.evolventDensity a symbolic integer in 2..12 (descent loop trip count split by the solver), N = 2..5, non-symmetric boxes: the evolvent carries the configured density and every trial coordinate of the first iterations is lower+(j+1/2)(upper-lower)/2^m; GetImage at symbolic density for dyadic and non-dyadic coordinates; whole runs with symbolic trial locations for N=2, m<=3. One-bit-per-level refinement from every orientation state is lemma A of C07.',
    note='z3; symex proxies and evolvent shims; floats as reals (exact for N*m<=50)'),
+
+ 'C10': dict(level='proof', ref='5/C10',
+   text='Per instance, the real Problem.Calculate is executed on a symbolic point and z3 (QF_NRA) discharges "no point of the box is lower than f*-tol" and "no point farther than 0.5% of the side from x* is lower than f(x*)" as unsat certificates: Hill and Shekel (seeded sample quick / all 2000 thorough) as exact univariate rational functions, GKLS per attraction ball + paraboloid path (n=2, thorough also n=3 sample), Rastrigin / XSquared N<=5 with cos relaxed soundly; clause (a) f(x*)=f* and x* in the box is a ground check for every member of every family (series constructed together). Grishagin, Shekel4, StronginC3: clause (a) only.',
+   note='z3 nlsat; symex proxies; exact trig encoding validated on pinned points; float evaluation error assumed far below the tolerances; (b),(c) for Grishagin/Shekel4/StronginC3 out of reach'),
+ 'C18': dict(level='proof', ref='5/C18',
+   text='Hill and Shekel tables row by row (seeded sample quick / all rows thorough): minimum and maximum rows as unsat certificates over the whole range (value within 1e-4, a global extremiser within 1e-4 of the range of the tabulated location), Lipschitz rows via the derivative of the rational function the real code produced (|f\'|<=L(1+1e-3) unsat of the negation, >=L(1-1e-3) sat); metadata of every instance of every family as ground facts (stated as such).',
+   note='z3 nlsat; symex proxies; symbolic differentiation of the produced term; metadata half needs no solver'),
 }
 checks = []
 for p in props:
